@@ -734,8 +734,10 @@ func (h *H) exec(wk int, cmd string, a []string, idxSeed int) (res string, msg s
 		x.resTok = map[int]*resToken{}
 		return "ok", ""
 	case "DUMP":
+		// the slot is taken even if the call panics: dump numbers are positions of DUMP lines
+		h.dumps = append(h.dumps, ecs.EntityDump{})
 		d := x.w.DumpEntities()
-		h.dumps = append(h.dumps, d)
+		h.dumps[len(h.dumps)-1] = d
 		sl := make([]int, len(d.Alive))
 		for i, id := range d.Alive {
 			e := d.Entities[id]
